@@ -129,6 +129,7 @@ func awkwardAny() []namedValue {
 		nv("no-nesting Stack", stackage.Or().SetNoNesting(true)), nv("capped full Stack", stackage.List(1).Push("full")), nv("Stack with rejecting push policy", stackage.And().SetPushPolicy(func(...any) error { return errCat })),
 		nv("Stack", stackage.And().Push("in", nil)), nv("Condition", stackage.Cond("k", stackage.Lt, 3)), nv("StackAlias", StackAlias(stackage.List().Push("al"))), nv("*CondAlias", func() any { c := CondAlias(stackage.Cond("a", stackage.Eq, "b")); return &c }()),
 		nv(`Cond("",Ne,"v")`, stackage.Cond("", stackage.Ne, "v")), nv("Init+SetOperator", func() any { var c stackage.Condition; c.Init(); c.SetOperator(stackage.Ge); return c }()),
+		nv("Init+SetExpression", func() any { var c stackage.Condition; c.Init(); c.SetExpression("only-ex"); return c }()), nv("Init+SetKeyword", func() any { var c stackage.Condition; c.Init(); c.SetKeyword("only-kw"); return c }()),
 		nv("&freed Stack", &freedS), nv("&freed Condition", &freedC), nv("&StackAlias{}", &StackAlias{}), nv("&Condition{}", &stackage.Condition{}),
 		nv("namedStr", namedStr("role")), nv("namedBool", namedBool(true)), nv("namedInt", namedInt(5)), nv("namedFloat", namedFloat(2.5)), nv("namedBytes", namedBytes("b")),
 		nv("[]*int{nil}", []*int{nil}), nv("[]func(){f}", []func(){func() {}}), nv("[2]*string{nil,nil}", [2]*string{}), nv("[]any{1,nil}", []any{1, nil}),
